@@ -337,6 +337,57 @@ func emitTraversal(name string, t [][2]interface{}) string {
 	return b.String()
 }
 
+
+// stringMap: the entries of a package-level `var <name> = map[string]string{ "k": "v", ... }`, sorted by key
+func stringMap(repo, file, name string) [][2]string {
+	fset := token.NewFileSet()
+	f, err := parser.ParseFile(fset, filepath.Join(repo, file), nil, 0)
+	if err != nil {
+		die("%v", err)
+	}
+	for _, d := range f.Decls {
+		gd, ok := d.(*ast.GenDecl)
+		if !ok || gd.Tok != token.VAR {
+			continue
+		}
+		for _, sp := range gd.Specs {
+			vs, ok := sp.(*ast.ValueSpec)
+			if !ok || len(vs.Names) != 1 || vs.Names[0].Name != name || len(vs.Values) != 1 {
+				continue
+			}
+			cl, ok := vs.Values[0].(*ast.CompositeLit)
+			if !ok {
+				die("%s: %s is not a composite literal", file, name)
+			}
+			var out [][2]string
+			for _, el := range cl.Elts {
+				kv, ok := el.(*ast.KeyValueExpr)
+				if !ok {
+					die("%s: %s: element is not key: value", file, name)
+				}
+				k, ok1 := strLit(kv.Key)
+				v, ok2 := strLit(kv.Value)
+				if !ok1 || !ok2 {
+					die("%s: %s: entry is not a pair of string literals", file, name)
+				}
+				out = append(out, [2]string{k, v})
+			}
+			sort.Slice(out, func(i, j int) bool { return out[i][0] < out[j][0] })
+			return out
+		}
+	}
+	die("%s: variable %s not found", file, name)
+	return nil
+}
+
+func emitPairs(name string, ps [][2]string) string {
+	q := make([]string, len(ps))
+	for i, p := range ps {
+		q[i] = "(" + coqStr(p[0]) + ", " + coqStr(p[1]) + ")"
+	}
+	return "Definition " + name + " : list (string * string) :=\n  [" + strings.Join(q, ";\n   ") + "].\n"
+}
+
 func main() {
 	if len(os.Args) != 3 {
 		die("usage: translator <repo> <outdir>")
@@ -366,6 +417,12 @@ func main() {
 	w.WriteString("\n")
 	w.WriteString(emitTraversal("apply_fields", traversal(repo, "internal/sql/astutils/rewrite.go", "apply", "apply")))
 	write(filepath.Join(outdir, "WalkOrder.v"), w.String())
+
+	var im strings.Builder
+	im.WriteString("(** GENERATED by /verif/translator from internal/codegen/golang/imports.go — do not edit.\n    stdlibTypes: Go type name (prefix) |-> standard-library import path. *)\n")
+	im.WriteString("From Coq Require Import List String.\nImport ListNotations.\nOpen Scope string_scope.\n\n")
+	im.WriteString(emitPairs("stdlib_types", stringMap(repo, "internal/codegen/golang/imports.go", "stdlibTypes")))
+	write(filepath.Join(outdir, "ImportTables.v"), im.String())
 }
 
 // write only when the content changed, so that make does not rebuild needlessly
